@@ -53,7 +53,8 @@ func (r *ReplayerImpl) Replay(transactionGroup []byte) error {
 			return errors.Wrap(err, "failed to convert WTSet to CSM")
 		}
 
-		err = r.writeFunc(csm, wtsets[0].RecordType == io.VARIABLE)
+		// a transaction group can hold write sets of both record types
+		err = r.writeFunc(csm, wtSet.RecordType == io.VARIABLE)
 		if err != nil {
 			return errors.Wrap(err, fmt.Sprintf("failed to WriteCSM. csm:%v", csm))
 		}
@@ -145,8 +146,13 @@ func serializeVariableRecords(epoch time.Time, intervalsPerDay uint32, wtSet *wa
 	// 1 record size = 8byte(Epoch) + columns + intervalTicks(4byte) = 8byte(Epoch) + VariableLengthRecord
 	cursor := 0
 	for i := 0; i < numRows; i++ {
-		// serialize Epoch (variable length records in a WTSet have the same Epoch value)
-		buf, err = io.Serialize(buf[:cursor], epoch.Unix())
+		// expand the record's intervalTicks(32bit, its last 4 bytes) to Epoch second and Nanosecond:
+		// for intervals longer than a second the record's second lies inside the interval
+		recordTicks := io.ToUInt32(payload[(i+1)*varRecLen-IntervalTicksBytes : (i+1)*varRecLen])
+		second, _ := executor.GetTimeFromTicks(uint64(epoch.Unix()), intervalsPerDay, recordTicks)
+
+		// serialize Epoch (the interval start plus the whole seconds of the record inside the interval)
+		buf, err = io.Serialize(buf[:cursor], int64(second))
 		if err != nil {
 			return nil, errors.Wrap(err, "failed to serialize Epoch to buffer:"+epoch.String())
 		}
